@@ -15,10 +15,15 @@
    an open finding, decided by a predicate on the witness:
      C05/empty-matching-regex            an empty leaf that instantiates a regex terminal
      C05/nonascii-text-next-to-binary    binary output and a text leaf with a code point >= 0x80
-     C05/open-repetition-capped          more than nodes.MAX_REPETITIONS iterations of an open-ended {n,}
-     C05/validate-compares-representation  the word IS parsed back and the first tree serialises to the very same
-                                         output, but validate() rejects it (TreeValue('q') vs TreeValue(b'q') for a
-                                         text-only tree of a binary spec; empty value vs '')
+     C05/open-repetition-capped          the witness is a derivation of the grammar (verified checker) but stops being
+                                         one when every open-ended `{n,}` (not `*`, `+`) is given the upper bound
+                                         "repetition cap the parser was compiled with" (verified checker on the
+                                         capped IR): it needs more than cap iterations of some `{n,}`
+     C05/nullable-completion-missed      the word is rejected, and accepted by the same code once `predict` re-completes
+                                         a symbol that was already completed empty in the column (the proposed
+                                         repair, monkeypatched in-process by c05_real.nullable_completion_repair only
+                                         for this classification): rejected because of exactly that
+   a rejection by validate() of a word that IS parsed back is reported as C05/validate-contract (F35, repaired).
 4. correspondence: every tree of the real fuzzer goes through the verified derivation checker (drv_ir) against
    the IR the enumerator runs on (ties the IR translation, in particular repetition bounds, to the generator).
 """
@@ -28,7 +33,7 @@ import json
 import re
 from typing import Any, Optional
 
-from harness.common import Run, driver_ask, lean_check, use_repo
+from harness.common import VERIF, MachineryError, Run, driver_ask, lean_check, use_repo
 from harness.gen.grammars import gen_spec
 from harness.impl import grammar_io as gio
 from harness.impl.pool import run_pool
@@ -37,8 +42,8 @@ PID = "C05"
 SIG_EMPTY = "C05/empty-matching-regex"
 SIG_NONASCII = "C05/nonascii-text-next-to-binary"
 SIG_OPENREP = "C05/open-repetition-capped"
-SIG_VALIDATE = "C05/validate-compares-representation"
-MAX_REPETITIONS = 20          # nodes.MAX_REPETITIONS; re-read from the implementation in main()
+SIG_NULLCOMP = "C05/nullable-completion-missed"
+CORPUS = VERIF / "corpus" / "C05"
 
 TRUSTED = [
     "Lean 4.33.0 kernel; axioms ⊆ {propext, Classical.choice, Quot.sound} (audited per run)",
@@ -68,18 +73,93 @@ CORNER = [
     '<start> ::= r"[a-z]{2}" r"[0-9]+" "é€"?\n',
     '<start> ::= rb"[a-c]+" b"\\x00" "xyz"\n',
     '<start> ::= "ab" "c"?\nwhere len(str(<start>)) >= 3\n',
+    # the adaptive tuner raises the generator's repetition cap; the parser must follow (Fandango.fuzz source)
+    '<start> ::= ("a"){2,} "b"\nwhere len(str(<start>)) >= 24\n',
+    '<start> ::= "a"+ "b"\nwhere len(str(<start>)) >= 24\n',
+    '<start> ::= ("a"){0,} "b"\n',
+    '<start> ::= "a"* "b"\n',
+    '<start> ::= "a"+ "b"\n',
+    '<start> ::= (<x>{1,} ","){2,}\n<x> ::= "a" | "b"\n',
+    # a nullable symbol completed empty in a column before another state that expects it arrives there
+    '<start> ::= <s1> <s2>\n<s1> ::= "a" <s2>\n<s2> ::= "b"?\n',
+    '<start> ::= <s1> <e>\n<s1> ::= "a" <e>\n<e> ::= ""\n',
+    '<start> ::= "a" <s2> <s2>\n<s2> ::= "b"?\n',
+    '<start> ::= <s2> "a" <s2> <s1>\n<s1> ::= <s2> "c"? <s2>\n<s2> ::= "b"*\n',
+    '<start> ::= <m1> <m1> "ab"\n<m1> ::= <m2> "ab"\n<m2> ::= "ab"? ("c"){0,2}\n',
 ]
+# specs whose Fandango.fuzz run needs more generations (the tuner has to raise the repetition cap first)
+LONG_EVOLUTION = {c for c in CORNER if ">= 24" in c}
+
+
+def rep_tree(n_a: int) -> list:
+    """<start> -> 'a' x n_a, 'b'"""
+    return ["n", "<start>", None, None, [["t", [97], None, None] for _ in range(n_a)] + [["t", [98], None, None]]]
+
+
+def explicit_trees(spec: str, cap: int) -> list:
+    """hand-written witnesses around the repetition cap (each is checked by the verified checker before use)"""
+    table = {
+        '<start> ::= ("a"){2,} "b"\n': [cap - 1, cap, cap + 1, 2 * cap + 3],
+        '<start> ::= ("a"){0,} "b"\n': [0, cap, cap + 1],
+        '<start> ::= "a"* "b"\n': [0, cap, cap + 1, 2 * cap + 3],
+        '<start> ::= "a"+ "b"\n': [1, cap, cap + 1, 2 * cap + 3],
+    }
+    return [rep_tree(n) for n in table.get(spec, [])]
+
+
+REUSE_LITS = ['"a"', '"b"', '"c"', '"ab"', '"-"']
+
+
+def gen_reuse_spec(rng) -> dict:
+    """named non-terminals that are nullable and used more than once (harness/gen/grammars.py uses every named
+    rule exactly once); no recursion, nullable parts never under an unbounded repetition"""
+    k = rng.randint(2, 4)
+    names = [f"<m{i}>" for i in range(1, k + 1)]
+
+    def atom(lo: int) -> str:
+        if rng.random() < 0.5 and lo < k:
+            return rng.choice(names[lo:])
+        lit = rng.choice(REUSE_LITS)
+        y = rng.random()
+        if y < 0.3:
+            return lit + "?"
+        if y < 0.4:
+            return lit + "*"
+        if y < 0.5:
+            return "(" + lit + "){0,2}"
+        return lit
+
+    def body(lo: int) -> str:
+        alts = [" ".join(atom(lo) for _ in range(rng.randint(1, 3))) for _ in range(rng.choice([1, 1, 2]))]
+        if rng.random() < 0.25:
+            alts.append('""')
+        return " | ".join(alts)
+
+    rules = [("<start>", " ".join([body(0)] if rng.random() < 0.3 else [atom(0) for _ in range(rng.randint(2, 4))]))]
+    rules += [(n, body(i + 1)) for i, n in enumerate(names)]
+    used = set(re.findall(r"<m\d+>", " ".join(b for _, b in rules)))
+    rules = [r for r in rules if r[0] == "<start>" or r[0] in used]
+    return {"spec": "".join(f"{n} ::= {b}\n" for n, b in rules), "cls": "reuse", "kind": "str",
+            "features": ["nonterminal-reuse"]}
 
 
 def mk_specs(run: Run, tier: str) -> list[dict]:
     rng = run.rng("grammars")
     quick = tier == "quick"
     specs = [{"spec": s, "cls": "corner", "features": ["corner"]} for s in CORNER]
+    have = set(CORNER)
+    for c in load_corpus():
+        if c["spec"] not in have:
+            have.add(c["spec"])
+            specs.append({"spec": c["spec"], "cls": "corpus", "features": ["corpus"]})
     n_gen = 200 if quick else 1400
-    classes = ["text", "regex", "bytes", "bits", "recursive", "regex", "bytes"]
+    classes = ["text", "regex", "bytes", "bits", "recursive", "regex", "bytes", "reuse"]
     for i in range(n_gen):
         cls = classes[i % len(classes)]
-        g = gen_spec(rng, cls, empty_regex=True, nonascii_binary=(i % 3 == 0), nested_reps=True)
+        if cls == "reuse":
+            g = gen_reuse_spec(rng)
+        else:
+            g = gen_spec(rng, cls, empty_regex=True, nonascii_binary=(i % 3 == 0), nested_reps=True)
         if cls in ("text", "regex") and i % 9 == 0:
             g["spec"] += "where len(str(<start>)) >= 2\n"
             g["features"].append("constraint")
@@ -96,12 +176,6 @@ def mk_specs(run: Run, tier: str) -> list[dict]:
 
 def leaves_of(tj: list) -> list:
     return [[tag, list(p) if tag != "i" else p] for tag, p in gio.tree_leaves(tj)]
-
-
-def max_fanout(tj: list) -> int:
-    if tj[0] != "n":
-        return 0
-    return max([len(tj[4])] + [max_fanout(k) for k in tj[4]])
 
 
 def conservative_greedy(patterns: list, binary: bool, word: list[int], leaves: list) -> bool:
@@ -140,8 +214,18 @@ def conservative_greedy(patterns: list, binary: bool, word: list[int], leaves: l
     return True
 
 
-def classify(item: dict, res: dict, patterns: list, spec: str) -> Optional[str]:
-    """signature of the open finding a rejected witness falls into, or None"""
+def has_open_braces(node: list) -> bool:
+    k = node[0]
+    if k in ("alt", "cat"):
+        return any(has_open_braces(n) for n in node[2])
+    if k == "rep":
+        return (node[5] is None and node[2] == "braces") or has_open_braces(node[3])
+    return False
+
+
+def classify(item: dict, res: dict, patterns: list, over_cap: Optional[bool]) -> Optional[str]:
+    """signature of the open finding a rejected witness falls into, or None.  `over_cap`: the verified checker
+    accepts the witness for the grammar but not for the grammar with `{n,}` bounded by the parser's cap."""
     leaves = leaves_of(item["tree"])
     tags = item.get("tags")
     binary = res["binary"]
@@ -162,9 +246,21 @@ def classify(item: dict, res: dict, patterns: list, spec: str) -> Optional[str]:
                 return SIG_EMPTY
     if binary and any(tag == "t" and any(c >= 0x80 for c in p) for tag, p in leaves):
         return SIG_NONASCII
-    if re.search(r"\{\d+,\}", spec) and max_fanout(item["tree"]) > MAX_REPETITIONS:
+    if over_cap:
         return SIG_OPENREP
+    if res.get("found_with_nullable_repair"):
+        return SIG_NULLCOMP
     return None
+
+
+def load_corpus() -> list[dict]:
+    out = []
+    if CORPUS.is_dir():
+        for f in sorted(CORPUS.glob("*.json")):
+            c = json.loads(f.read_text())
+            c["file"] = f.name
+            out.append(c)
+    return out
 
 
 # ------------------------------------------------------------------------------------------------
@@ -195,19 +291,18 @@ def replay(path: str) -> int:
 
 
 def main(tier: str) -> int:
-    global MAX_REPETITIONS
     run = Run(PID, tier, "proof")
     use_repo()
-    from fandango.language.grammar import nodes as _nodes
-    MAX_REPETITIONS = int(_nodes.MAX_REPETITIONS)
     lean = lean_check("Props.C05", ["drv_enum", "drv_ir"])
     quick = tier == "quick"
     specs = mk_specs(run, tier)
     # ---- phase A: real front end + real fuzzer
     gens = run_pool("harness.impl.c05_real",
                     [{"op": "gen", "spec": s["spec"], "seed": s["seed"], "n_fuzz": 0 if s["constrained"] else (3 if quick else 8),
-                      "constraints": ["inline"] if s["constrained"] else None} for s in specs],
-                    nproc=16, per_case_s=30 if quick else 60, hard_s=150 if quick else 600)
+                      "constraints": ["inline"] if s["constrained"] else None,
+                      "max_generations": 60 if s["spec"] in LONG_EVOLUTION else 15,
+                      "population_size": 20 if s["spec"] in LONG_EVOLUTION else 10} for s in specs],
+                    nproc=16, per_case_s=90 if quick else 120, hard_s=300 if quick else 900)
     # ---- the enumerator
     enum_reqs, enum_idx = [], []
     for i, (s, g) in enumerate(zip(specs, gens)):
@@ -232,12 +327,28 @@ def main(tier: str) -> int:
                 seen.add(key)
                 lst.append({"tree": t["tree"], "tags": t["tags"], "src": "enumerator"})
                 run.count("enum:trees")
-    # explicit witness for the open-ended repetition cap
-    for i, s in enumerate(specs):
-        if s["spec"] == '<start> ::= ("a"){2,} "b"\n':
-            kids = [["t", [97], None, None] for _ in range(MAX_REPETITIONS + 1)] + [["t", [98], None, None]]
-            items_by_spec.setdefault(i, []).append({"tree": ["n", "<start>", None, None, kids],
-                                                    "tags": [None] * (MAX_REPETITIONS + 2), "src": "explicit"})
+    # hand-written witnesses: around the repetition cap, and the corpus of past disagreements; each must pass the
+    # verified derivation checker before it is used as a word of the language
+    exp_reqs, exp_ref = [], []
+    corpus_by_spec: dict[str, list] = {}
+    for c in load_corpus():
+        corpus_by_spec.setdefault(c["spec"], []).append(c)
+    for i, (s, g) in enumerate(zip(specs, gens)):
+        if "grammar" not in g:
+            continue
+        cands = [("explicit", t) for t in explicit_trees(s["spec"], g["cap"])]
+        cands += [("corpus", c["witness"]) for c in corpus_by_spec.get(s["spec"], [])]
+        for src, tj in cands:
+            exp_reqs.append({"op": "valid", "grammar": g["grammar"], "oracle": gio_oracle(g["patterns"], tj), "tree": tj})
+            exp_ref.append((i, src, tj))
+    if exp_reqs:
+        for (i, src, tj), a in zip(exp_ref, driver_ask("drv_ir", exp_reqs, timeout=300)):
+            if not a["valid"]:
+                raise MachineryError(f"hand-written witness is not a derivation of {specs[i]['spec']!r}: {json.dumps(tj)[:300]}")
+            n_leaves = len(leaves_of(tj))
+            items_by_spec.setdefault(i, []).append({"tree": tj, "tags": [None] * n_leaves if not gens[i]["patterns"] else None,
+                                                    "src": src})
+            run.count("witness:" + src)
     # ---- fuzzer trees, through the verified derivation checker (ties the IR translation to the generator)
     valid_reqs, valid_ref = [], []
     for i, (s, g) in enumerate(zip(specs, gens)):
@@ -293,6 +404,32 @@ def main(tier: str) -> int:
     if greedy_reqs:
         for k, a in zip(greedy_ref, driver_ask("drv_enum", greedy_reqs, timeout=900)):
             greedy[k] = a["greedy"]
+    # rejected witnesses of grammars with an open-ended {n,}: does the witness need more iterations than the cap the
+    # parser was compiled with?  (drv_enum `capvalid` = the verified checker on RepCap.capGrammar, C05_capValid_iff:
+    # a derivation of the IR, not of the IR with {n,} bounded by cap)
+    over_cap: dict[int, Optional[bool]] = {}
+    cap_reqs, cap_ref = [], []
+    for k, (i, item, r) in enumerate(records):
+        g = gens[i]
+        if "found" not in r or (r["found"] and r["validate_first"] is not False):
+            continue
+        if not any(has_open_braces(body) for _, body in g["grammar"]["rules"]):
+            continue
+        oracle = gio_oracle(g["patterns"], item["tree"])
+        cap_reqs.append({"op": "capvalid", "grammar": g["grammar"], "oracle": oracle, "tree": item["tree"],
+                         "cap": 0, "sel": "none"})
+        cap_reqs.append({"op": "capvalid", "grammar": g["grammar"], "oracle": oracle, "tree": item["tree"],
+                         "cap": g["cap"], "sel": "braces"})
+        cap_ref.append(k)
+    if cap_reqs:
+        ans = limited_driver_ask("drv_enum", cap_reqs)
+        for j, k in enumerate(cap_ref):
+            a_open, a_cap = ans[2 * j], ans[2 * j + 1]
+            if a_open is None or a_cap is None:
+                run.count("classify:checker_out_of_resources")
+                over_cap[k] = None
+            else:
+                over_cap[k] = bool(a_open["valid"]) and not a_cap["valid"]
     for k, (i, item, r) in enumerate(records):
         s, g = specs[i], gens[i]
         src = item["src"]
@@ -315,6 +452,14 @@ def main(tier: str) -> int:
         run.count("in_class" if in_class else "out_of_class(regex split not greedy)")
         run.count("accepted" if ok else "rejected")
         run.count("len:%d" % min(len(r["word"]), 12))
+        if "validate_accepts_mismatch" in r:
+            run.count("validate:negative_control")
+            if r["validate_accepts_mismatch"] is not None:
+                run.report("C05/validate-contract",
+                           f"{s['spec'].strip()!r}: validate() accepts the parsed tree of {r['validate_accepts_mismatch']} for a "
+                           f"generated tree whose output is {r['word']}",
+                           {"spec": s["spec"], "word": r["word"], "witness": item["tree"], "source": src,
+                            "patterns": g["patterns"], "other_word": r["validate_accepts_mismatch"]})
         if ok:
             continue
         replay_d = {"spec": s["spec"], "word": r["word"], "witness": item["tree"], "source": src,
@@ -323,20 +468,19 @@ def main(tier: str) -> int:
                                   if r["found"] else f"no tree with the identical serialisation among {r['n_trees']} yielded")
         what = (f"{s['spec'].strip()!r}: the {'binary' if r['binary'] else 'text'} output {r['word']} of a "
                 f"{src} tree is not parsed back ({why})")
-        sig = classify(item, r, g["patterns"], s["spec"])
         if r["found"] and r["validate_first"] is False:
-            # the word is parsed back; only the CLI's validate() objects
-            # open finding: validate() compares the two TreeValues by representation (str vs bytes vs empty),
-            # not by what is written to the file — decided by: the first tree serialises to the very same output
-            sig = SIG_VALIDATE if r.get("first_same") else None
-            if sig is None:
-                run.report("C05/validate-contract", what, replay_d)
-                continue
+            # the word is parsed back; only the CLI's validate() objects (F35, repaired by 65b290c5)
+            run.report("C05/validate-contract", what, replay_d)
+            continue
+        sig = classify(item, r, g["patterns"], over_cap.get(k))
+        if r.get("repair_timeout"):
+            run.count("classify:repair_attempt_timeout")
         if sig is None and not in_class:
             run.count("rejected:out_of_class")
             continue
         if sig is not None:
             run.count("known:" + sig)
+            run.count(f"known:{sig}:{src}")
             if run.counters["known:" + sig] <= 3:      # a few witnesses per open finding are enough on the console
                 run.report(sig, what, replay_d)
         else:
@@ -346,7 +490,6 @@ def main(tier: str) -> int:
     run.coverage["disagreement_samples"] = corr[:5]
     ok_share = run.counters.get("spec:ok", 0) / max(1, len(specs))
     if ok_share < 0.6 or run.evaluations < 50:
-        from harness.common import MachineryError
         raise MachineryError(f"too few cases could be run: {run.counters}")
     if (not lean.ok or corr) and not run.violations:
         what = []
@@ -358,10 +501,12 @@ def main(tier: str) -> int:
                    {"broken_obligations": lean.broken, "correspondence": corr[:20]}, no_input=True)
     return run.finish(
         lean,
-        rule="specs: corner list + seeded generator over {text, regex (incl. empty-matching), bytes (incl. "
-             "non-ASCII text), bits, recursive} with nested/bounded repetitions; words: Grammar.fuzz, "
-             "Fandango.fuzz (constrained specs), Lean enumerator (depth 5, repetition counts <= 3, 4 instances "
-             "per regex, truncated lists, rotated alternatives); a case is non-trivial when the word has >= 2 "
+        rule="specs: corner list + corpus + seeded generator over {text, regex (incl. empty-matching), bytes (incl. "
+             "non-ASCII text), bits, recursive, reuse (nullable named rules used several times)} with "
+             "nested/bounded repetitions; words: Grammar.fuzz, Fandango.fuzz (constrained specs, incl. runs in "
+             "which the tuner raises the repetition cap), Lean enumerator (depth 5, repetition counts <= 3, 4 "
+             "instances per regex, truncated lists, rotated alternatives), hand-written witnesses around the "
+             "repetition cap (checked by the verified checker); a case is non-trivial when the word has >= 2 "
              "units and the witness >= 2 leaves; distinct by (spec, word, source)",
         trusted_base=TRUSTED)
 
